@@ -16,7 +16,8 @@
 (*                                                                          *)
 (* Deviation switches (Dev): F6 per-attribute commitment with base a_0,     *)
 (* F7 no attribute range check, F8 proofs of square not tied to E_a1/E_b1,  *)
-(* F9 commitments serialised with their randomness, F10 short blindings.    *)
+(* F9 commitments serialised with their randomness, F10 short blindings,    *)
+(* F16 short blinding of the square roots inside the range proofs.          *)
 (***************************************************************************)
 EXTENDS Integers, Sequences, FiniteSets
 
@@ -260,6 +261,15 @@ MaskTable(ln) ==
     Resp("spok", "spok/s_9", "re", ln, ln, wide(ln)),
     Resp("spok", "proofs_commited_mi/*/value/s1", "m", lm, lm, wide(lm)),
     Resp("spok", "proofs_commited_mi/*/value/s2", "r_i", ln, ln, wide(ln)) }
+\* The proofs of square inside every range proof answer for x_1 = isqrt(2^T (x - a)) (and the same towards b)
+\* with d = omega + c x_1, c a full 256-bit hash.  x_1 has about (T + lx) / 2 bits for an lx-bit interval,
+\* T = 2 (t + l + 1) + lx with t = 128, l = 40.  F16 (as is): omega is drawn below 2^(l+t) * rmax, i.e.
+\* l + t + lx bits -- shorter than x_1 itself, so floor(d / c)^2 / 2^T is the committed value.
+RangeT(lx) == 2 * (128 + 40 + 1) + lx
+RangeSquareResp(lx) ==
+  LET sb == (RangeT(lx) + lx) \div 2 + 1 IN
+  [proof |-> "range", path |-> "proof_of_square_*/proof_ss/d", secret |-> "isqrt(2^T (x - a))", sbits |-> sb,
+   mask |-> IF "F16" \in Dev THEN 128 + 40 + lx ELSE sb + ChalBits + 80]
 \* a response statistically masks its secret when the blinding exceeds secret * challenge by 64 bits
 Masks(r) == r.mask >= r.sbits + ChalBits + 64
 \* the listed criterion for a single response divided by its challenge
